@@ -1,4 +1,5 @@
 """C09 — collectives equal the sequential fold of all ranks' inputs (DESIGN §5 C09)."""
+import re
 from . import *
 
 def inp(seed, r, k):
@@ -40,6 +41,7 @@ def explore(seed, sizes):
     if exe is None:
         return 0, 0, [{'what': 'collectives harness does not compile against the current headers', 'log': err[-1500:]}], []
     fails, n_eval, samples = [], 0, []
+    orders = {}
     pols = ['uniform', 'late', 'early', 'starve']
     for i, n in enumerate(sizes):
         s = seed * 31 + i
@@ -63,8 +65,29 @@ def explore(seed, sizes):
                               'size': n, 'seed': s, 'cmd': r['cmd']})
                 if len(fails) > 12:
                     return n_eval, len(sizes), fails, samples
+        orders.setdefault(n, set()).update(got.get(('tree_order', rk)) for rk in range(n))
         if n == 5:
             samples.append({'size': 5, 'seed': s, 'inputs': [inp(s, x, 5) for x in range(5)], 'tree_sum_on_every_rank': got.get(('tree_sum', 0))})
+    # the merge order of the real tree against the Coq model of it (Tree.tree_all_reduce with list append)
+    if orders and not fails:
+        ns = sorted(orders)
+        text = '''From Coq Require Import ZArith List. Import ListNotations.
+From Ygm Require Import Tree.
+Local Open Scope Z_scope.
+Eval vm_compute in map (fun n => tree_all_reduce (@app Z) (fun r => [r]) n) [%s].
+''' % '; '.join(map(str, ns))
+        rc, out = coq_eval('tree_order', text)
+        flat = ' '.join(out.split()).replace('%Z', '')
+        m = re.search(r'= \[(.*)\] : list', flat)
+        if rc != 0 or not m:
+            fails.append({'what': 'Tree.tree_all_reduce could not be evaluated: ' + out[-400:]})
+        else:
+            lists = re.findall(r'\[([^\[\]]*)\]', m.group(1))
+            for n, l in zip(ns, lists):
+                want = ''.join(x.strip() + ',' for x in l.split(';') if x.strip())
+                n_eval += 1
+                if orders[n] != {want}:
+                    fails.append({'what': 'all_reduce with a non-commutative merge (concatenation) on %d ranks returned %s; Tree.tree_all_reduce (the model the fold theorem is about) gives %s' % (n, sorted(map(str, orders[n])), want), 'size': n})
     return n_eval, len(sizes), fails, samples
 
 def run(tier, seed, replay=None):
@@ -74,7 +97,7 @@ def run(tier, seed, replay=None):
         return {'ok': True, 'msg': None, 'failures': fails, 'validated': n_eval, 'evaluations': n_eval, 'nontrivial': nsizes,
                 'rule': 'communicator sizes %s (powers of two and not) under simmpi; every collective on every rank, every root for bcast; inputs from the seed; distinct sizes counted' % sizes,
                 'samples': samples or [{'sizes': sizes}],
-                'tie': 'T: Gen_tree.v (child/parent indices) regenerated from comm.ipp and re-proved; D: every collective of the real library compared with the sequential fold on every rank',
+                'tie': 'T: Gen_tree.v (child/parent indices) regenerated from comm.ipp and re-proved; D: every collective of the real library compared with the sequential fold on every rank; the merge order of the real tree (non-commutative concatenation) compared with Tree.tree_all_reduce evaluated in Coq, the model C09_tree_reduce_is_fold is about',
                 'replay': 'simmpi/simrun -n <size> -- collectives <seed>'}
     def search():
         return explore(seed + 5, list(range(1, 25)))[2]
